@@ -26,10 +26,21 @@ theorem not_rejects : ¬ Spec.Rejects concreteEnv (sendParam concreteEnv) := by
   cases he
 
 /-- the hypothesis of `C02_reject_partial` that fails here -/
-theorem not_lossless : ¬ lossless concreteEnv tsMs := by
+theorem not_lossless : ¬ lossless concreteEnv tsMs sent := by
   intro h
-  have := h 1577836800123456 0 1577836800123000 0 (by rfl)
+  have := h 1577836800123000 0 (by rfl)
   revert this
   decide
+
+/-! Second open finding: a Decimal whose coefficient has 39 digits and whose rescale drops digits is parsed by pyarrow into
+128 bits with silent wrap-around; when the wrapped number happens to rescale exactly, a different value is stored. -/
+
+def dec38 : Ty := .native 5 38 0
+def sentDec : V := .native 5 (-386588882507734923781764784854539347556) (-1)
+def receivedDec : V := .native 5 (-4630651558679646031839017742277113610) 0
+
+theorem witness_dec_wellTyped : wellTyped concreteEnv dec38 sentDec = true := by decide
+theorem witness_dec_not_representable : inhabits concreteEnv dec38 sentDec = false := by decide
+theorem witness_dec_changed : sendParam concreteEnv dec38 sentDec = .ok receivedDec := by rfl
 
 end VgiVerif.C02.Findings
